@@ -13,8 +13,44 @@ import (
 	"runtime"
 	"strconv"
 	"sync"
+	"sync/atomic"
+	"syscall"
 	"time"
+
+	"verif/vsched"
 )
+
+// WorkerError classifies a failed task. "timeout" is a wall-clock limit of the machinery and
+// depends on machine load: it is never evidence about the code under test (IsTimeout), the
+// run is merely incomplete. "cpu-loop" is the worker's own CPU-time watchdog (a goroutine of
+// the code under test consumed CPUStallLimit of processor time without reaching a
+// scheduling point). "died" is a crashed worker process.
+type WorkerError struct{ Kind, Msg string }
+
+func (e *WorkerError) Error() string { return e.Msg }
+
+// IsTimeout reports whether err is the load-dependent wall-clock limit.
+func IsTimeout(err error) bool {
+	w, ok := err.(*WorkerError)
+	return ok && w.Kind == "timeout"
+}
+
+// CrashViol turns a failed task into violation text: nothing for the load-dependent wall-clock
+// timeout (counted in WorkerTimeouts; the run is reported as not exhaustive), the worker's
+// message otherwise (CPU-loop watchdog, or a worker process that died twice on the task).
+func CrashViol(err error) []string {
+	if err == nil || IsTimeout(err) {
+		return nil
+	}
+	return []string{"worker failed: " + err.Error()}
+}
+
+// WorkerTimeouts counts wall-clock timeouts of this run (reported in the evidence; a run
+// with timeouts is not exhaustive).
+var WorkerTimeouts int64
+
+// CPUStallLimit: processor time one execution may burn between two scheduling points.
+const CPUStallLimit = 90 * time.Second
 
 // Pool runs tasks on worker subprocesses of the current binary.
 type Pool struct {
@@ -82,11 +118,15 @@ func (w *worker) call(task []byte, timeout time.Duration) ([]byte, error) {
 		for {
 			line, err := w.out.ReadBytes('\n')
 			if err != nil {
-				ch <- res{nil, fmt.Errorf("worker died: %v", err)}
+				ch <- res{nil, &WorkerError{Kind: "died", Msg: fmt.Sprintf("worker died: %v", err)}}
 				return
 			}
 			if len(line) > 2 && line[0] == 'R' && line[1] == ' ' {
 				ch <- res{line[2 : len(line)-1], nil}
+				return
+			}
+			if len(line) > 2 && line[0] == 'H' && line[1] == ' ' {
+				ch <- res{nil, &WorkerError{Kind: "cpu-loop", Msg: string(line[2 : len(line)-1])}}
 				return
 			}
 		}
@@ -95,7 +135,8 @@ func (w *worker) call(task []byte, timeout time.Duration) ([]byte, error) {
 	case r := <-ch:
 		return r.b, r.err
 	case <-time.After(timeout):
-		return nil, fmt.Errorf("worker timeout after %v", timeout)
+		atomic.AddInt64(&WorkerTimeouts, 1)
+		return nil, &WorkerError{Kind: "timeout", Msg: fmt.Sprintf("worker wall-clock timeout after %v", timeout)}
 	}
 }
 
@@ -139,6 +180,18 @@ func (p *Pool) Map(tasks [][]byte, onResult func(i int, res []byte, err error)) 
 					p.mu.Lock()
 					p.Crashes++
 					p.mu.Unlock()
+					// a died or timed-out worker may be the machine (memory pressure, load), not
+					// the task: one retry on a fresh worker with twice the limit decides
+					if we, ok := err.(*WorkerError); ok && we.Kind != "cpu-loop" {
+						if w2, e2 := p.spawn(); e2 == nil {
+							b, err = w2.call(tasks[i], 2*p.Timeout)
+							if err != nil {
+								w2.kill()
+							} else {
+								w = w2
+							}
+						}
+					}
 				}
 				rmu.Lock()
 				onResult(i, b, err)
@@ -190,6 +243,7 @@ func (p *Pool) Close() {
 func ServeWorker(exec func(task []byte) []byte) {
 	in := bufio.NewReaderSize(os.Stdin, 1<<20)
 	out := bufio.NewWriter(os.Stdout)
+	go cpuWatchdog()
 	for {
 		line, err := in.ReadBytes('\n')
 		if len(line) > 1 {
@@ -212,4 +266,38 @@ func MustJSON(v any) []byte {
 		panic(err)
 	}
 	return b
+}
+
+func cpuSeconds() float64 {
+	var ru syscall.Rusage
+	if syscall.Getrusage(syscall.RUSAGE_SELF, &ru) != nil {
+		return 0
+	}
+	return float64(ru.Utime.Sec+ru.Stime.Sec) + float64(ru.Utime.Usec+ru.Stime.Usec)/1e6
+}
+
+// cpuWatchdog ends the worker with an "H" line when an execution under the cooperative
+// scheduler has consumed CPUStallLimit of *processor* time (not wall time: immune to machine
+// load) without passing a scheduling point: some goroutine of the code under test is in a loop
+// that no lock, channel or atomic operation interrupts, which no step budget can see.
+func cpuWatchdog() {
+	last := atomic.LoadUint64(&vsched.Beat)
+	mark := cpuSeconds()
+	for {
+		time.Sleep(500 * time.Millisecond)
+		b := atomic.LoadUint64(&vsched.Beat)
+		now := cpuSeconds()
+		if b != last || atomic.LoadInt32(&vsched.InRun) == 0 {
+			last, mark = b, now
+			continue
+		}
+		limit := CPUStallLimit.Seconds()
+		if v, err := strconv.Atoi(os.Getenv("VERIF_STALL_S")); err == nil && v > 0 {
+			limit = float64(v) // testing the watchdog itself
+		}
+		if now-mark >= limit {
+			fmt.Printf("H execution consumed %.0f s of CPU time without reaching a scheduling point (unbounded loop in the code under test)\n", now-mark)
+			os.Exit(3)
+		}
+	}
 }
